@@ -167,8 +167,30 @@ def ob_cascade(W, nsec, blocks):
     W.goal("input-not-modified", True if n == 0 else W.eq(X(0, n)[0], x[0]))
 
 
+class _small_buffer:
+    """replay with the same small buffer size as the symbolic run (module constant _DEFAULT_BUFFER_SIZE)"""
+    def __init__(self, W):
+        self.W = W
+
+    def __enter__(self):
+        if not self.W.sym:
+            import speckit.noise as Nz
+            self.old = Nz._DEFAULT_BUFFER_SIZE
+            Nz._DEFAULT_BUFFER_SIZE = 3
+
+    def __exit__(self, *a):
+        if not self.W.sym:
+            import speckit.noise as Nz
+            Nz._DEFAULT_BUFFER_SIZE = self.old
+
+
 def ob_stream(W, kind, blocks, init_filter):
     """concatenation of block requests == one request of the total length, for twins built with the same seed"""
+    with _small_buffer(W):
+        return _ob_stream(W, kind, blocks, init_filter)
+
+
+def _ob_stream(W, kind, blocks, init_filter):
     G = sym_noise() if W.sym else None
     g1 = mk_gen(W, G, kind, 11, init_filter)
     g2 = mk_gen(W, G, kind, 11, init_filter)
